@@ -27,6 +27,7 @@ RULE = (
 ASSUMPTIONS = [
     "checksums are written as zero: their algorithm is not public and the reader does not verify them",
     "root-level entries are nodes (as_dict() is defined for node roots only, as in every real file)",
+    "the unused tail of a key table is at least one entry header (21 bytes) long, zero-filled or a free entry",
     "the replay log has no outstanding entries (replaying a dirty log is documented as not implemented)",
 ]
 
@@ -35,7 +36,7 @@ STR_ALPHABET = "abcXYZ 0123456789\\:/-_.{}äöü€\U0001F600中"
 
 
 def budget(tier):
-    return 1200 if tier == "quick" else 50000
+    return 5000 if tier == "quick" else 50000
 
 
 @st.composite
